@@ -74,6 +74,19 @@ def r10_1(ctx):
         if sg:
             ok2, how = comparator_desc_len(F, g, sg[0][1], sg[0][2])
             r.ob("longest-first:Rule::variables:descending-length", ok2, g.loc(span_line(sg[0][1]["s"])), "comparator: %s" % how)
+        # what the list holds: the raw captures only for a rule that declares no variable, otherwise exactly the
+        # declared variables -- a capture listed beside a variable of the same name is substituted first (the sort
+        # is stable, replace() consumes every `@name` at the first entry), so the variable's transformers never apply
+        gl = F.loop_form(g)
+        rows = {}
+        for p in Sym(gl, copies=True, max_paths=100000).paths():
+            em = [v for a, v in p.conds if a[0] == "call" and a[1] == "std::vec::Vec::is_empty" and mentions_field(a[2][0], "variables", "api::rule::Rule")]
+            for e in p.events:
+                if e[0] == "call" and e[1] in ("std::vec::Vec::push", "std::vec::Vec::insert") and mentions(e[2][-1], lambda y: y[0] == "agg" and y[1] == "tuple"):
+                    kind = "declared" if mentions(e[2][-1], lambda y: y[0] == "call" and y[1].endswith("Variable::get_value")) else "capture"
+                    rows.setdefault(kind, set()).add(em[0] if em else None)
+        okv = rows.get("capture") == {1} and rows.get("declared") == {0}
+        r.ob("variables:captures-only-without-declared-variables", okv, g.site, "captures are listed under `self.variables.is_empty()` only, declared variables otherwise: %s" % {k: sorted(v, key=str) for k, v in rows.items()})
         # replace() applies the list in order
         h = F.fn(SOD + "::replace")
         lps = for_loops(h)
